@@ -42,7 +42,7 @@ ASSUMPTIONS = {
 TIERS = {
     "C20": {
         "quick": {"runs": 12000, "chunk": 200, "per_run_timeout": 120, "wall_cap": 300},
-        "thorough": {"runs": 300000, "chunk": 500, "per_run_timeout": 300, "wall_cap": 3000},
+        "thorough": {"runs": 300000, "chunk": 500, "per_run_timeout": 300, "wall_cap": 2400},
     }
 }
 
